@@ -37,6 +37,20 @@ CHECKS = {
              "line starts; full-lexer comments and non-logical newlines equal CPython tokenize's. A run that never saw some Tok variant is inconclusive.",
         note="Trusted: the spelling tables and gap regular expression in mon/checks/c05.py; CPython tokenize for comment/NL positions (LF-only texts).",
         design="§2 C05"),
+    "C06": dict(
+        technique="differential runtime oracle on literal-only modules (hundreds of literals per parse request) against CPython's decoded values; exhaustive escape space",
+        text="All one-character escapes x 9 literal kinds, all octal and \\xHH escapes, all BMP \\u escapes (thorough), sampled \\U and \\N{name}, backslash-newline "
+             "with LF/CR/CRLF, every prefix spelling x quote style, triple-quoted text, implicit concatenation, integers in every base with underscores and word-boundary "
+             "magnitudes, floats from seeded bit patterns and long digit strings, imaginary literals: the Constant values (ints exact, floats by bits) must equal the reference's.",
+        note="Trusted: CPython 3.11 literal decoding; lone surrogates are compared after the documented U+FFFD mapping.",
+        design="§2 C06"),
+    "C07": dict(
+        technique="differential runtime oracle on generated and corpus f-strings (tree) + slice-reparse monitor for the ranges of expressions inside replacement fields",
+        text="Generated f-string bodies (fields with arbitrary expressions, conversions, nested specs, '=' forms, doubled braces, escapes) in single/triple, raw/non-raw, "
+             "concatenated forms, three newline styles and seven surrounding contexts, plus every f-string of the sampled library, are compared with the reference's "
+             "JoinedStr decomposition; every expression under a replacement field must re-parse from source[range] to the same node (own text in the enclosing file).",
+        note="Trusted: CPython 3.11 (pre-PEP 701) for the decomposition; for inner ranges the expression's own text (CPython's f-string locator uses substring search and is not used).",
+        design="§2 C07"),
     "C14": dict(
         technique="exhaustive small-scope runtime differential: every signature shape is converted by the real API and compared with the structure computed from the generator's description (unique integer defaults make the history unambiguous)",
         text="All signatures within stated bounds (posonly<=1(2), args<=2, vararg, kwonly<=3, kwarg, every legal default subset, annotations, def/lambda) "
